@@ -164,6 +164,19 @@ CHECKS = {
         design="DESIGN.md 5 (C15)",
         technique="TLA+ spec + TLC exhaustive; spec->code replay of every enumerated state",
     ),
+    "C16": dict(
+        engine="tla-dataset",
+        text="Dataset.tla specifies Load(dataset, frame id, task, merge): one frame per sample in table order with the sample's time, one object per "
+        "annotation (instance id, converted label, attributes, size, lidar points, visibility level), map pose = annotated pose, ego pose = "
+        "inverse ego pose applied (exact on lattice poses), tracked past positions, stored ego->map transform. TLC samples small datasets and "
+        "checks frame / object counts and ego<->map consistency; each dataset is written as a T4/nuScenes directory (13 json tables; LIDAR_TOP or "
+        "LIDAR_CONCAT; visibility by level name or v0-40 alias) and loaded by the real load_all_datasets for detection / tracking / sensing x "
+        "base_link / map x merge, compared field by field; random float datasets (5-20 samples) are loaded in both frames and checked for "
+        "structure and ego->map consistency.",
+        note="lidar calibrated at the ego origin; lattice poses exact to 1e-9, random poses to 1e-6; 3-D loader only (2-D nuImages loading not modelled)",
+        design="DESIGN.md 5 (C16)",
+        technique="TLA+ spec + TLC; spec->code replay through generated dataset directories",
+    ),
     "C17": dict(
         engine="tla-timeline",
         text="Timeline.tla defines Lookup (nearest frame within tolerance, ties either) and InterpLookup (neighbours before / after within tolerance, "
